@@ -123,6 +123,10 @@ def check_ds(c, rec):
              merge_small_dims_block_size=1, best_effort_shape_interpretation=False, skip_preconditioning_rank_lt=0,
              eigh=c["eigh"], beta2=c["beta2"], matrix_epsilon=c["eps"], relative_matrix_epsilon=c["rel"], diagonal_epsilon=1e-30)
   tol = 2e-5
+  if not jax.config.jax_enable_x64:
+    # float32 Newton roots carry a rounding error of about kappa * 2^-24 with kappa <= 1/eps (relative ridge), and two batch
+    # arrangements round differently: 2e-5 at eps = 1e-3, 2e-4 at eps = 1e-4 (observed once in 10^4 comparisons: 4.5e-5)
+    tol = max(tol, 2e-8 / c["eps"])
   mode = c.get("mode", "jit")
   if mode == "pmapq":
     tol = 2e-3      # int16 quantisation of statistics and preconditioners: half a bucket ~ 1.5e-5 per entry, amplified by the root
